@@ -3,6 +3,7 @@ package checks
 import (
 	"encoding/json"
 	"fmt"
+	"hash/fnv"
 	"math/big"
 	"sort"
 	"strings"
@@ -13,7 +14,8 @@ import (
 
 // ---------- C02: character passwords uniform over exactly the valid strings ----------
 
-var customStrings = []string{"", "a", "ab", "abc", "aab", "bc", "é", "éa", "éaé", "c", "b1", "1"}
+// é (c3 a9), è (c3 a8) share their lead byte, é and ĩ (c4 a9) their trail byte
+var customStrings = []string{"", "a", "ab", "abc", "aab", "bc", "é", "éè", "éa", "éaé", "c", "b1", "1", "ĩé"}
 
 func c02Recipes(tier string) []ref.CharRecipe {
 	var out []ref.CharRecipe
@@ -21,6 +23,7 @@ func c02Recipes(tier string) []ref.CharRecipe {
 	if tier == "quick" {
 		strs = strs[:8]
 	}
+	_ = strs
 	maxSets := 2
 	lengths := []int{1, 2, 3}
 	var reqLists [][]string
@@ -61,6 +64,14 @@ func c02Recipes(tier string) []ref.CharRecipe {
 				for _, rq := range [][]string{nil, {"1"}, {"a1"}, {"a", "1"}} {
 					out = append(out, ref.CharRecipe{Length: L, AllowChars: al, Exclude: ex, RequireSets: rq})
 				}
+			}
+		}
+	}
+	// requirements on multi-byte characters that share UTF-8 bytes with other alphabet members
+	for _, L := range []int{1, 2, 3} {
+		for _, al := range []string{"è", "èê", "ĩ", "èĩa"} {
+			for _, rq := range [][]string{{"é"}, {"é", "è"}, {"éa"}, {"ĩ"}} {
+				out = append(out, ref.CharRecipe{Length: L, AllowChars: al, RequireSets: rq})
 			}
 		}
 	}
@@ -224,7 +235,13 @@ func mustJSON(v interface{}) string {
 
 func c02Run(c *core.Ctx) {
 	for _, r := range c02Recipes(c.Tier) {
-		if !c.Mine() {
+		// recipes that differ only in their required sets run in the same
+		// worker process, one after the other, so that state leaking from
+		// one recipe into the next (a cache with an incomplete key) shows
+		// up as a wrong distribution of the later one
+		h := fnv.New32a()
+		fmt.Fprintf(h, "%d|%s|%s|%d|%d", r.Length, r.AllowChars, r.ExcludeChars, r.Allow, r.Exclude)
+		if !c.MineKey(int(h.Sum32() % 9973)) {
 			continue
 		}
 		if c.Expired() {
